@@ -99,7 +99,7 @@ def coq_case(case, res, strict_err=True):
     return '(%s, %s, %s)' % (ins, ops, cq_expect(res, strict_err))
 
 HEADER = ('From DA Require Import Prelude NDArray Array PyRT.\n'
-          'From DA.Model Require Import Value Reshape Indexing Align Ops.\n'
+          'From DA.Model Require Import Value Reshape Indexing Align Transform Flatten Ops.\n'
           'Open Scope string_scope.\n')
 
 # ---------------------------------------------------------------- indexing (C01, C02, C03)
@@ -346,3 +346,123 @@ class _:
 class _:
     def run(a, ins): return da().broadcast_arrays(*ins)
     def coq(): return 'OBroadcastArrays'
+
+
+# ---------------------------------------------------------------- along-axis family (C08 C09 C11 C17 C18)
+_RED = {'sum': 'RSum', 'prod': 'RProd', 'mean': 'RMean', 'var': 'RVar', 'std': 'RStd', 'min': 'RMin', 'max': 'RMax',
+        'ptp': 'RPtp', 'all': 'RAll', 'any': 'RAny', 'median': 'RMedian'}
+def cq_axarg(ax):
+    if ax is None: return 'AxNone'
+    if isinstance(ax, list): return '(AxMany %s)' % cq_list([cq_axref(r) for r in ax])
+    return '(AxOne %s)' % cq_axref(ax)
+
+def _square(r):
+    """std is compared through its square (the model computes the variance exactly)"""
+    from fractions import Fraction
+    D = da()
+    sq = lambda x: float('nan') if x != x else Fraction(*float(x).as_integer_ratio()) ** 2
+    return r, sq
+
+@op('reduce')
+class _:
+    def run(a, ins, name, skipna, ax):
+        axis = tuple(ax) if isinstance(ax, list) else ax
+        return getattr(a, name)(axis=axis, skipna=skipna)
+    def coq(name, skipna, ax):
+        return '(OReduce %s %s %s)' % (_RED[name], 'true' if skipna else 'false', cq_axarg(ax))
+
+@op('cum')
+class _:
+    def run(a, ins, prod, skipna, r, default_axis):
+        f = a.cumprod if prod else a.cumsum
+        return f(skipna=skipna) if default_axis else f(axis=r, skipna=skipna)
+    def coq(prod, skipna, r, default_axis):
+        return '(OCum %s %s %s)' % ('true' if prod else 'false', 'true' if skipna else 'false', cq_axref(r))
+
+@op('diff')
+class _:
+    def run(a, ins, r, scheme, keepaxis, n): return a.diff(axis=r, scheme=scheme, keepaxis=keepaxis, n=n)
+    def coq(r, scheme, keepaxis, n):
+        return '(ODiff %s %s %s %d)' % (cq_axref(r), scheme.capitalize(), 'true' if keepaxis else 'false', n)
+
+@op('argext')
+class _:
+    def run(a, ins, mx, r):
+        f = a.argmax if mx else a.argmin
+        res = f() if r is None else f(axis=r)
+        if r is not None and not hasattr(res, 'axes'): return (res,)
+        return res
+    def coq(mx, r): return '(OArgExt %s %s)' % ('true' if mx else 'false', cq_opt(r, cq_axref))
+
+@op('dropna')
+class _:
+    def run(a, ins, r, minvalid): return a.dropna(axis=r, minvalid=minvalid)
+    def coq(r, minvalid): return '(ODropna %s %s)' % (cq_axref(r), 'None' if minvalid is None else '(Some %d)' % minvalid)
+
+@op('fillna')
+class _:
+    def run(a, ins, v): return a.fillna(v)
+    def coq(v):
+        c, k = cq_fill(v); return '(OFillna %s %s)' % (c, k)
+
+@op('setna')
+class _:
+    def run(a, ins, vs, as_list): return a.setna(vs if as_list else vs[0])
+    def coq(vs, as_list): return '(OSetna %s)' % cq_list([cq_cell(v) for v in vs])
+
+@op('setna_mask')
+class _:
+    def run(a, ins, mask): return a.setna(np.array(mask, dtype=bool).reshape(a.shape))
+    def coq(mask): return '(OSetnaMask %s)' % cq_list(['true' if b else 'false' for b in mask])
+
+@op('take_axis')
+class _:
+    def run(a, ins, idx, r, mode):
+        if mode == 'label': return a.take_axis([py_label(x) for x in idx], axis=r)
+        return a.take_axis(list(idx), axis=r, indexing='position')
+    def coq(idx, r, mode):
+        if mode == 'label': return '(OTakeAxisLabel %s %s)' % (cq_labs(idx), cq_axref(r))
+        return '(OTakeAxisPos %s %s)' % (cq_list([cq_z(z) for z in idx]), cq_axref(r))
+
+@op('compress_axis')
+class _:
+    def run(a, ins, mask, r): return a.compress_axis(np.array(mask, dtype=bool), axis=r)
+    def coq(mask, r): return '(OCompressAxis %s %s)' % (cq_list(['true' if b else 'false' for b in mask]), cq_axref(r))
+
+@op('interp')
+class _:
+    def run(a, ins, news, kind, r, left, right):
+        kw = {}
+        if left is not None: kw['left'] = left
+        if right is not None: kw['right'] = right
+        return a.interp_axis(labs_np(news, kind), axis=r, **kw)
+    def coq(news, kind, r, left, right):
+        c = lambda v: 'CNaN' if v is None else cq_cell(float(v))
+        return '(OInterp %s %s %s %s %s)' % (cq_kind(kind), cq_labs(news), cq_axref(r), c(left), c(right))
+
+@op('flatten')
+class _:
+    def run(a, ins, refs, form, insert):
+        kw = {} if insert is None else {'insert': insert}
+        if form == 'args': return a.flatten(*refs, **kw)
+        return a.flatten({'tuple': tuple, 'list': list, 'set': set}[form](refs), **kw)
+    def coq(refs, form, insert):
+        return '(OFlatten %s %s %s)' % (cq_list([cq_axref(r) for r in refs]), 'true' if form == 'set' else 'false', cq_opt(insert, cq_z))
+
+@op('unflatten')
+class _:
+    def run(a, ins): return a.unflatten()
+    def coq(): return 'OUnflatten'
+
+@op('reshape')
+class _:
+    def run(a, ins, newdims, as_args): return a.reshape(*newdims) if as_args else a.reshape(list(newdims))
+    def coq(newdims, as_args): return '(OReshape %s)' % cq_list([cq_str(d) for d in newdims])
+
+
+@op('percentile')
+class _:
+    def run(a, ins, q, r):
+        from dimarray.lib.stats import percentile
+        return percentile(a, q, axis=r)
+    def coq(q, r): raise Unsupported('percentile is checked by the oracle only (np.percentile is not modelled)')
